@@ -454,9 +454,20 @@ class PybindWrapper:
         return res
 
     def wrap_instantiated_class(
-            self, instantiated_class: instantiator.InstantiatedClass):
-        """Wrap the class."""
-        module_var = self._gen_module_var(instantiated_class.namespaces())
+            self,
+            instantiated_class: instantiator.InstantiatedClass,
+            module_var: str = None):
+        """
+        Wrap the class.
+
+        Args:
+            instantiated_class: The class to wrap.
+            module_var: The module to define the class in. A typedef can be
+                in another namespace than the template, so this is not always
+                the module of `instantiated_class.namespaces()`.
+        """
+        if module_var is None:
+            module_var = self._gen_module_var(instantiated_class.namespaces())
         cpp_class = instantiated_class.to_cpp()
         if cpp_class in self.ignore_classes:
             return ""
@@ -511,9 +522,12 @@ class PybindWrapper:
                         instantiated_class.operators, cpp_class)))
 
     def wrap_instantiated_declaration(
-            self, instantiated_decl: instantiator.InstantiatedDeclaration):
-        """Wrap the forward declaration."""
-        module_var = self._gen_module_var(instantiated_decl.namespaces())
+            self,
+            instantiated_decl: instantiator.InstantiatedDeclaration,
+            module_var: str = None):
+        """Wrap the forward declaration, see `wrap_instantiated_class`."""
+        if module_var is None:
+            module_var = self._gen_module_var(instantiated_decl.namespaces())
         cpp_class = instantiated_decl.to_cpp()
         if cpp_class in self.ignore_classes:
             return ""
@@ -680,11 +694,13 @@ class PybindWrapper:
                     includes += includes_namespace
 
                 elif isinstance(element, instantiator.InstantiatedClass):
-                    wrapped += self.wrap_instantiated_class(element)
+                    wrapped += self.wrap_instantiated_class(
+                        element, module_var)
                     wrapped += self.wrap_enums(element.enums, element)
 
                 elif isinstance(element, instantiator.InstantiatedDeclaration):
-                    wrapped += self.wrap_instantiated_declaration(element)
+                    wrapped += self.wrap_instantiated_declaration(
+                        element, module_var)
 
                 elif isinstance(element, parser.Variable):
                     variable_namespace = self._add_namespaces('', namespaces)
